@@ -289,6 +289,8 @@ class Sec:
                                     c.ing.add("LIT:" + o["v"])
                         if r["k"] == "discr":
                             c.ing.add("DISCR")
+                            if r["p"].get("ty", "").lstrip("&").startswith("mut core::option::Option<") or r["p"].get("ty", "").lstrip("&").startswith("core::option::Option<"):
+                                c.ing.add("PRESENCE")     # `match slot { Some(_) => .., None => .. }` is the is_some() test
                 out.append(c)
         self._checks = out
         return out
